@@ -23,7 +23,7 @@ def mkgen(fams, nq, nt):
     return gen
 
 
-def run(prop, name_re, fams, tier, seed, replay, rule, nq=24, nt=400, known_patterns=None, files=None):
+def run(prop, name_re, fams, tier, seed, replay, rule, nq=24, nt=1500, known_patterns=None, files=None):
     files = files or SCHED_FILES
     return hist.run_sched_property(prop, files, [f[:-2] + ".vo" for f in files], name_re, mkgen(fams, nq, nt), tier, seed,
                                    replay=replay, rule=rule, known_patterns=known_patterns)
